@@ -6,7 +6,8 @@ every FFTW call other than execute/malloc/free runs under the one process-wide p
 evaluation function parks a fresh allocation in a static, a parameter or a processor; R5 every transform
 overwrites the scratch it reads (index-set coverage); R6 evaluation reads no clock/environment/RNG; R7 every pointer field
 of a thread_local processor refers to storage allocated by that object's constructor call (provenance through helper and
-accessor functions), never to process-wide storage.
+accessor functions), never to process-wide storage; R8 no evaluation function writes storage reachable from a key or
+parameter-object argument (the objects concurrent evaluations share), not even scratch space.
 Not decided: data-race freedom inside libfftw3; memory-model questions of concurrent reads.
 """
 import re
@@ -208,6 +209,8 @@ def run(chk):
         coverage.check_c06_scratch(chk, v)
         # R7 ownership of the buffers behind the thread_local processors
         check_processor_ownership(chk, v, procs, lib_statics)
+        # R8 key and parameter objects are shared between threads: evaluation must not write through them
+        check_shared_arguments(chk, v, evalfns)
 
 
 # ------------------------------------------------------------------------------ R7: a per-thread processor owns its buffers
@@ -332,12 +335,13 @@ def check_processor_ownership(chk, v, procs, lib_statics):
                 tags |= provenance(v, val, field_vals, tls_names, memo)
             shared = sorted(t for t in tags if isinstance(t, str) and t.startswith("static:"))
             wr = fname in written
-            if shared and (wr or True):
-                # shared storage is harmless only if no transform writes through it; the transform kernels (assembly / library
-                # calls) receive these pointers, so every pointer field of the processor is treated as written unless it is const data
-                const_pointee = any(re.match(r"\s*const\b", f["t"]) for f in r["fields"] if f["n"] == fname)
-                if const_pointee and not wr:
-                    chk.proved("R7", key, where=ctors[0].where, detail="points to shared read-only data %s" % shared, variant=vn)
+            if shared:
+                # shared storage is harmless when no method writes through the field (mod sets of the methods, which include
+                # the stores of the assembly kernels through their pointer arguments): e.g. read-only trigonometric tables
+                if not wr:
+                    chk.proved("R7", "%s::%s refers to per-object storage or to shared storage that is only read" % (r["name"], fname),
+                               where=ctors[0].where, detail="points into process-wide storage %s, which no method of %s writes through" % (
+                                   [s_[7:] for s_ in shared], r["name"]), variant=vn)
                     continue
                 chk.refuted("R7", key, where=ctors[0].where,
                             detail="the constructor installs a pointer into process-wide storage %s (%s): every thread's thread_local processor then "
@@ -350,3 +354,37 @@ def check_processor_ownership(chk, v, procs, lib_statics):
                 chk.assumed("R7", key, where=ctors[0].where, detail="provenance of %s not fully resolved (%s)" % (sym.show(vals[-1])[:60], sorted(map(str, tags))), variant=vn)
             else:
                 chk.proved("R7", key, where=ctors[0].where, detail="allocated by the constructor call (%s)" % ", ".join(sorted(map(str, tags))), variant=vn)
+
+
+# ------------------------------------------------------------------------------ R8: nothing shared between threads is written
+def check_shared_arguments(chk, v, evalfns):
+    """The objects concurrent evaluations share are the key material and the parameter objects they are handed (all const
+    pointers).  No evaluation function may write storage reachable from such an argument -- not even scratch space."""
+    from rules import c15, c17
+    vn = v.name
+    E, balanced = c15.evaluation_effects(v)
+    closure, _ = c17.type_closure(v, c17.CLOUD)
+    shared_recs = {r for r in closure} | {r for r in v.records if r.endswith("Params") or r.endswith("ParameterSet")}
+    ciphertext = {"LweSample", "TLweSample", "TGswSample", "TorusPolynomial", "IntPolynomial", "LagrangeHalfCPolynomial", "TLweSampleFFT"}
+    n = 0
+    for f in sorted(evalfns, key=lambda f: f.name):
+        bad = []
+        for (rk, fl), ev in E.mod(f.usr).items():
+            if rk[0] != "param":
+                continue
+            prm = f.params[rk[1]]
+            if not prm.get("pointee_const"):
+                continue            # an output parameter: owned by the calling thread
+            recs = c17.record_names_in_type(prm["t"], v.records)
+            # a key / parameter object, or anything reached through a parameter-object field of any argument
+            is_shared = bool(recs & shared_recs - ciphertext) or any(x in ("params", "bk_params", "tlwe_params", "in_out_params", "accum_params",
+                                                                           "extract_params", "extracted_lweparams", "bk", "bkFFT", "ks") for x in fl)
+            if is_shared:
+                bad.append("%s%s written at %s (%s)" % (prm["n"], "".join("." + x for x in fl), ev[0], ev[1][:100]))
+        shared_params = [p["n"] for p in f.params if p.get("pointee_const") and c17.record_names_in_type(p["t"], v.records) & shared_recs - ciphertext]
+        if not shared_params and not bad:
+            continue
+        n += 1
+        chk.require(not bad, "R8", "%s writes nothing reachable from the key / parameter objects it shares with other threads" % f.name, where=f.where,
+                    ok="shared arguments %s are only read" % shared_params, bad="; ".join(sorted(bad))[:500], variant=vn)
+    chk.vcount(vn, "R8.functions_with_shared_arguments", n)
